@@ -80,6 +80,11 @@ def modelOp (L : Nat) (ws : List String) : Option String :=
   | ["SERA", t] => do some (opSERA (← parseTree t) 0 0)
   | ["SERA", t, m, k] => do some (opSERA (← parseTree t) (← m.toNat?) (← k.toNat?))
   | ["ROUND", t] => do some (opROUND (← parseTree t) L)
+  | ["RO", t] => do
+      let x ← parseTree t
+      let sz := (size x).toNat
+      let r := serInto x sz
+      some s!"{sz} {toHex (r.2.extract 0 r.1.toNat)} intact=1"
   | _ => none
 
 end Drv
